@@ -278,8 +278,8 @@ def base_centroid(r):
 def close_pairs(structure, cutoff=11.0, max_pairs=4000):
     """Indices (i<j) of residue pairs whose base centroids are within cutoff."""
     key = ("cp", id(structure), cutoff)
-    if key in _cache:
-        return _cache[key]
+    if key in _cache and _cache[key][0] is structure:  # the entry holds the structure: its id cannot be reused
+        return _cache[key][1]
     cents = [(i, base_centroid(r)) for i, r in enumerate(structure.residues)]
     cents = [(i, c) for i, c in cents if c is not None]
     out = []
@@ -291,7 +291,7 @@ def close_pairs(structure, cutoff=11.0, max_pairs=4000):
             if a < b and structure.residues[cents[a][0]].model == structure.residues[cents[b][0]].model:
                 out.append((cents[a][0], cents[b][0]))
     out = out[:max_pairs]
-    _cache[key] = out
+    _cache[key] = (structure, out)
     return out
 
 
